@@ -6,7 +6,8 @@ EXTENDS RaftRs, Json
 CONSTANTS MIds, MVoters, MLearners, PreVoteOn, CheckQuorumOn,
           MaxTerm, MaxLog, MaxNet, MaxCrashes, MaxProposals, MaxDepth,
           AllowDrop, AllowDup, AllowAsync, AllowCrash, PrintReplay, Fine,
-          EagerReady, QuiescentTicks, MaxLeaderTicks, TickNodes, MaxDrops
+          EagerReady, QuiescentTicks, MaxLeaderTicks, TickNodes, MaxDrops,
+          MaxTransfers, TransferTargets, MaxConf, ConfMenuIds, MaxReads, LazyApply, AllowCompact, ProposeAnywhere
 
 K0 == [election_tick |-> 3, heartbeat_tick |-> 1, max_size_per_msg |-> NoLimit, max_inflight |-> 2,
        check_quorum |-> CheckQuorumOn, pre_vote |-> PreVoteOn, skip_bcast_commit |-> FALSE, batch_append |-> FALSE,
@@ -19,12 +20,23 @@ MCTimeouts == [i \in MCIds |-> {2 + i}]
 Count(ev) == Cardinality({k \in DOMAIN h : h[k].ev = ev})
 Payload(k) == CASE k = 0 -> "va" [] k = 1 -> "vb" [] k = 2 -> "vc" [] OTHER -> "vd"
 
+(* menu of membership changes (decoded ConfChangeV2) *)
+CC(tr, ch) == [tr |-> tr, ch |-> ch]
+Ch(t, id) == [t |-> t, id |-> id]
+ConfMenu == <<CC("A", <<Ch("V", 3)>>), CC("A", <<Ch("R", 2)>>), CC("A", <<Ch("L", 3)>>), CC("A", <<Ch("R", 1)>>),
+              CC("E", <<Ch("V", 3), Ch("R", 2)>>), CC("I", <<Ch("L", 2), Ch("V", 3)>>), CC("A", <<>>),
+              CC("A", <<Ch("L", 2)>>), CC("A", <<Ch("V", 2)>>)>>
+RECURSIVE ChSize(_)
+ChSize(ch) == IF ch = <<>> THEN 0 ELSE 2 + (IF ch[1].t = "V" THEN 0 ELSE 2) + 2 + ChSize(Tail(ch))
+CCSize(cc) == (IF cc.tr = "A" THEN 0 ELSE 2) + ChSize(cc.ch)
+ReadCtx(k) == CASE k = 0 -> "r01" [] k = 1 -> "r02" [] OTHER -> "r03"
+
 LastQueued(i) == IF app[i].queue = <<>> THEN app[i].applied ELSE Last(app[i].queue).i
 ApplyAllOrSkip(i) ==
     IF Idle(i) /\ LastQueued(i) >= app[i].applied /\ ~(LastQueued(i) = app[i].applied /\ node[i].log.applied >= LastQueued(i))
     THEN ApplyA(i, LastQueued(i)) ELSE UNCHANGED vars
 (* synchronous processing of one Ready as the lib.rs example does: ready, persist, advance, apply *)
-SyncReadyA(i) == ReadyA(i) \cdot AdvanceAppendA(i) \cdot ApplyAllOrSkip(i)
+SyncReadyA(i) == IF LazyApply THEN ReadyA(i) \cdot AdvanceAppendA(i) ELSE ReadyA(i) \cdot AdvanceAppendA(i) \cdot ApplyAllOrSkip(i)
 (* ticks until the election timeout fires (followers/candidates), one tick for a leader *)
 TicksLeft(i) == IF node[i].role = "L" THEN 1 ELSE Max(1, node[i].rt - node[i].ee)
 TickN(i) ==
@@ -52,7 +64,16 @@ Next ==
                       \/ (Fine /\ AllowAsync /\ \E u \in {app[i].lastTaken} : FsyncA(i, u))
                       \/ (Fine /\ AllowAsync /\ \E k \in {app[i].lastDurable} : NotifyA(i, k))
                       \/ (Fine /\ ApplyA(i, LastQueued(i)))
-                      \/ (Count("Propose") < MaxProposals /\ node[i].role = "L" /\ ProposeA(i, Payload(Count("Propose")), 2))
+                      \/ (Count("Propose") < MaxProposals /\ (ProposeAnywhere \/ node[i].role = "L") /\ ProposeA(i, Payload(Count("Propose")), 2))
+                      \/ (LazyApply /\ ~Fine /\ ~(EagerReady /\ SomeReady) /\ ApplyA(i, LastQueued(i)))
+                      \/ (Count("Transfer") < MaxTransfers /\ ~(EagerReady /\ SomeReady) /\ node[i].role = "L"
+                            /\ \E to \in TransferTargets : TransferA(i, to))
+                      \/ (Count("ProposeConf") < MaxConf /\ ~(EagerReady /\ SomeReady) /\ node[i].role = "L"
+                            /\ \E k \in ConfMenuIds : ProposeConfA(i, ConfMenu[k].tr, ConfMenu[k].ch, CCSize(ConfMenu[k])))
+                      \/ (Count("ReadIndex") < MaxReads /\ ~(EagerReady /\ SomeReady) /\ ReadIndexA(i, ReadCtx(Count("ReadIndex"))))
+                      \/ (AllowCompact /\ ~(EagerReady /\ SomeReady) /\ MakeSnapA(i))
+                      \/ (AllowCompact /\ ~(EagerReady /\ SomeReady) /\ CompactA(i, SnapPointOf(i)))
+                      \/ (\E rp \in app[i].reports : ReportSnapA(i, rp[1], rp[2]))
                       \/ (AllowCrash /\ Count("Crash") < MaxCrashes /\ CrashA(i))
                       \/ RestartA(i)
     \/ \E m \in BagToSet(net) : ~(EagerReady /\ SomeReady) /\
@@ -73,5 +94,6 @@ View == <<node, up, stor, dur, app, net, rdi, gh, bad>>
 
 (* evaluated once per distinct state *)
 Judge == bad = {} \/ PrintT(ToJson([k |-> "MCVIOL", bad |-> bad, h |-> h]))
+NoBad == bad = {}
 Replay == ~PrintReplay \/ PrintT(ToJson([k |-> "REPLAY", h |-> h]))
 =============================================================================
